@@ -28,7 +28,7 @@ DEADLINE = {"quick": 60, "thorough": 600}
 REQUIRED = {
     "visit:pre": 100, "visit:in": 100, "visit:post": 100, "visit:pre:stopped": 50, "visit:in:stopped": 50,
     "visit:post:stopped": 50, "visit:nested": 500, "query:find_id:hit": 20, "query:find_id:miss": 5, "query:get_sibling": 50,
-    "query:get_root_side": 50, "query:find_type": 20, "shape:one-child": 10, "mutation-histories": 50, "mutation:move": 50, "mutation:wrap": 50, "mutation:replaced-node-queried": 50,
+    "query:get_root_side": 50, "query:find_type": 20, "shape:one-child": 10, "mutation-histories": 50, "mutation:move": 50, "mutation:wrap": 50, "mutation:replaced-node-queried": 50, "mutation:same-child-set-again": 50, "mutation:walk-aborted-by-an-exception": 50,
 }
 
 
@@ -208,7 +208,7 @@ def mutation_history(rec, rng, fac, kn, steps=12):
     for t in trees:
         query_all(t, rng, kn == "expr")
     for _ in range(steps):
-        op = rng.choice(["rotate", "rotate", "rotate", "move", "wrap", "swap", "swap", "detach", "replace", "replace", "layout"])
+        op = rng.choice(["rotate", "rotate", "rotate", "move", "wrap", "swap", "swap", "detach", "replace", "replace", "layout", "reattach", "aborted-walk"])
         a = rng.choice(trees)
         try:
             nodes = S.nodes_preorder(a)
@@ -234,6 +234,40 @@ def mutation_history(rec, rng, fac, kn, steps=12):
                 l, r = n.left, n.right
                 n.set_left(r)
                 n.set_right(l)
+            elif op == "reattach":
+                # "replace the child and detach the old one" where the replacement IS the old child
+                # (a transform that returned its input): the tree must be exactly as before
+                par = n.parent
+                if par is not None:
+                    if par.left is n:
+                        par.set_left(n, clear_old_child_parent=True)
+                    else:
+                        par.set_right(n, clear_old_child_parent=True)
+                    rec.arm("mutation:same-child-set-again")
+                    rec.ev()
+                    if n.parent is not par:
+                        rec.violation("C14", "query_get_root", "get_root disagrees with the link structure",
+                                      {"shape": W9.shape_str(W9.shape_of(S.root_of(par))), "node_path": "?", "summary": "set_left/set_right(child, clear_old_child_parent=True) with the child "
+                                       f"that is already there: the child is still attached but its parent is {n.parent!r}; get_root() from it gives its own subtree"})
+                        n.parent = par
+            elif op == "aborted-walk":
+                # a visitor raises half-way; the caller handles it; the next walk is complete again
+                order = rng.choice(["preorder", "inorder", "postorder"])
+                count = [0]
+                stop_at = rng.randrange(1, 6)
+
+                class _Boom(Exception):
+                    pass
+
+                def boom(node, depth, data):
+                    count[0] += 1
+                    if count[0] >= stop_at:
+                        raise _Boom()
+
+                try:
+                    getattr(S.root_of(n), f"visit_{order}")(boom, 0, None)
+                except _Boom:
+                    rec.arm("mutation:walk-aborted-by-an-exception")
             elif op == "layout":
                 # the tree is drawn at some point (the layout leaves x / y / offset attributes on the
                 # nodes it saw); nodes grafted in afterwards have none of them
